@@ -43,9 +43,17 @@ Reject(e, what, exp, got) ==
 Init == /\ store = Empty /\ res = [cls |-> "ok", out |-> {}]
         /\ l = 1 /\ tid = "" /\ bad = FALSE /\ nprec = 0
 
+(* a write the (fault-injecting) backing store rejected: the call fails with that error and leaves no trace *)
+Injected(e) == e.cls = "other" /\ e.err = "verif: injected backing store failure" /\ e.req.op \in {"create", "update", "destroy"}
+
 StepOp(e) ==
   LET r == AbsReq(e) IN
-  IF e.cls \notin Outcomes(r)
+  IF Injected(e)
+    THEN IF e.pv # PredVector("other") THEN Reject(e, "predicates", PredVector("other"), e.pv)
+         ELSE IF AbsKVs(e.out) # {} THEN Reject(e, "output", {}, AbsKVs(e.out))
+         ELSE IF AbsKVs(e.contents) # PairsOf(store) THEN Reject(e, "contents-after-rejected-write", store, AbsKVs(e.contents))
+         ELSE UNCHANGED <<store, res, tid, bad, nprec>>
+  ELSE IF e.cls \notin Outcomes(r)
     THEN Reject(e, "class", Outcomes(r), e.cls)
   ELSE IF e.pv # PredVector(e.cls)
     THEN Reject(e, "predicates", PredVector(e.cls), e.pv)
